@@ -26,12 +26,14 @@ import (
 	"io"
 	"log/slog"
 	"os"
+	"os/exec"
 	"path/filepath"
 	"runtime"
 	"sort"
 	"strconv"
 	"strings"
 	"sync"
+	"syscall"
 	"time"
 
 	"github.com/bufbuild/buf/private/bufpkg/bufmodule"
@@ -50,6 +52,7 @@ import (
 	"github.com/bufbuild/buf/private/pkg/verifhook"
 	"github.com/bufbuild/verifharness/internal/bk"
 	"github.com/bufbuild/verifharness/internal/hx"
+	"github.com/google/uuid"
 )
 
 var ctx = context.Background()
@@ -202,8 +205,10 @@ func genModules(r *hx.Rand, i int) []mod {
 		files["buf.md"] = []byte("# docs " + strconv.Itoa(r.Intn(100)))
 	}
 	mds := []bufmoduletesting.ModuleData{
-		{Name: "buf.build/acme/dep", PathToData: depFiles},
-		{Name: "buf.build/acme/main", PathToData: files},
+		// fixed commit ids: the testing helper otherwise invents random ones, and the kill
+		// campaign's child processes must regenerate exactly the same keys
+		{Name: "buf.build/acme/dep", CommitID: uuid.NewSHA1(uuid.NameSpaceURL, []byte("dep"+strconv.Itoa(i))), PathToData: depFiles},
+		{Name: "buf.build/acme/main", CommitID: uuid.NewSHA1(uuid.NameSpaceURL, []byte("main"+strconv.Itoa(i))), PathToData: files},
 	}
 	if r.Chance(1, 2) {
 		y, err := bufmodule.NewObjectData("buf.yaml", []byte("version: v1\nname: buf.build/acme/main\n"))
@@ -943,7 +948,111 @@ func (d delegateProvider) GetModuleDatasForModuleKeys(ctx context.Context, keys 
 	return out, nil
 }
 
+// childStore: a separate process stores module `mi` of case `i` into a disk cache and SIGKILLs
+// itself at the killAt-th verif hook hit (between and inside storage operations). killAt < 0:
+// no kill; the number of hook hits is printed.
+func childStore(args []string) {
+	seed, _ := strconv.ParseUint(args[0], 10, 64)
+	i, _ := strconv.Atoi(args[1])
+	mi, _ := strconv.Atoi(args[2])
+	dir := args[3]
+	killAt, _ := strconv.Atoi(args[4])
+	tar := args[5] == "1"
+	mods := genModules(hx.NewRand(seed).Fork(uint64(i)), i)
+	m := mods[mi]
+	var hits int64
+	var hmu sync.Mutex
+	verifhook.SetHandler(func(string) {
+		hmu.Lock()
+		n := hits
+		hits++
+		hmu.Unlock()
+		if killAt >= 0 && n == int64(killAt) {
+			syscall.Kill(os.Getpid(), syscall.SIGKILL)
+			select {}
+		}
+	})
+	bucket, err := storageos.NewProvider().NewReadWriteBucket(dir)
+	must(err)
+	locker, err := filelock.NewLocker(dir, filelock.LockerWithLockRetryDelay(time.Millisecond))
+	must(err)
+	var opts []bufmodulestore.ModuleDataStoreOption
+	if tar {
+		opts = append(opts, bufmodulestore.ModuleDataStoreWithTar())
+	}
+	store := bufmodulestore.NewModuleDataStore(logger, bucket, locker, opts...)
+	if err := store.PutModuleDatas(ctx, []bufmodule.ModuleData{m.data}); err != nil {
+		fmt.Println("store-error", err)
+		os.Exit(9)
+	}
+	fmt.Println("hits", hits)
+}
+
+// partKill: real crashes. For every hook hit k of a store, a child process is killed at k;
+// the parent then loads (must be a miss or the correct content), lets a second, concurrent pair
+// of processes store (one of them killed), and finally repairs with a fault-free store.
+func partKill(run *hx.Run, idx int, mi int, m mod, r *hx.Rand, tmpRoot string) {
+	c := caseCtx{run, idx, m, "kill"}
+	self, err := os.Executable()
+	must(err)
+	for _, tar := range []string{"0", "1"} {
+		probeDir := filepath.Join(tmpRoot, fmt.Sprintf("k%d-%d-probe%s", idx, mi, tar))
+		must(os.MkdirAll(probeDir, 0o755))
+		out, err := exec.Command(self, "child-store", strconv.FormatUint(run.Seed, 10), strconv.Itoa(idx), strconv.Itoa(mi), probeDir, "-1", tar).Output()
+		os.RemoveAll(probeDir)
+		if err != nil {
+			c.fail("kill-probe-failed", fmt.Sprintf("fault-free child store failed: %v %s", err, out), nil)
+			return
+		}
+		var hits int
+		fmt.Sscanf(strings.TrimSpace(string(out)), "hits %d", &hits)
+		run.Count("kill:hook-hits-per-store=" + strconv.Itoa(hits))
+		for k := 0; k < hits; k++ {
+			if !run.Thorough() && hits > 14 && k%2 == 1 && k < hits-4 {
+				continue // quick tier: every second interior point of long stores
+			}
+			dir := filepath.Join(tmpRoot, fmt.Sprintf("k%d-%d-%s-%d", idx, mi, tar, k))
+			must(os.MkdirAll(dir, 0o755))
+			cmd := exec.Command(self, "child-store", strconv.FormatUint(run.Seed, 10), strconv.Itoa(idx), strconv.Itoa(mi), dir, strconv.Itoa(k), tar)
+			cmd.Run()
+			killed := cmd.ProcessState != nil && !cmd.ProcessState.Exited()
+			bucket, err := storageos.NewProvider().NewReadWriteBucket(dir)
+			must(err)
+			class, files := loadReal(bucket, m, tar == "1")
+			run.Eval()
+			run.Distinct(fmt.Sprintf("kill-%d-%d-%s-%d", idx, mi, tar, k))
+			run.Count("kill:tar=" + tar + ":load:" + strings.SplitN(class, ":", 2)[0])
+			if !killed {
+				run.Count("kill:child-not-killed")
+			}
+			in := map[string]any{"part": "kill", "tar": tar == "1", "kill_at_hook_hit": k, "of": hits}
+			rp := strings.Join([]string{self, "child-store", strconv.FormatUint(run.Seed, 10), strconv.Itoa(idx), strconv.Itoa(mi), "<dir>", strconv.Itoa(k), tar}, " ")
+			switch {
+			case class == "miss":
+			case class == "hit" && sameFiles(files, m.files):
+			case class == "hit":
+				run.Fail(hx.OracleFailure{Class: "wrong-content-served", What: fmt.Sprintf("after SIGKILL at hook hit %d/%d the cache serves other content", k, hits), Input: in, Replay: rp})
+			default:
+				// an honest interrupted store must never leave an entry that is MARKED complete
+				// with other content (that would be a digest mismatch for ever)
+				run.Fail(hx.OracleFailure{Class: "interrupted-store-marked-complete", What: fmt.Sprintf("after SIGKILL at hook hit %d/%d the entry loads as %s", k, hits, class), Input: in, Replay: rp})
+			}
+			// repair by a later store (separate process, no kill)
+			out, err := exec.Command(self, "child-store", strconv.FormatUint(run.Seed, 10), strconv.Itoa(idx), strconv.Itoa(mi), dir, "-1", tar).CombinedOutput()
+			class2, files2 := loadReal(bucket, m, tar == "1")
+			if err != nil || class2 != "hit" || !sameFiles(files2, m.files) {
+				run.Fail(hx.OracleFailure{Class: "later-store-does-not-repair", What: fmt.Sprintf("after SIGKILL at hook hit %d/%d a later store gives err=%v (%s), load=%s", k, hits, err, strings.TrimSpace(string(out)), class2), Input: in, Replay: rp})
+			}
+			os.RemoveAll(dir)
+		}
+	}
+}
+
 func main() {
+	if len(os.Args) > 1 && os.Args[1] == "child-store" {
+		childStore(os.Args[2:])
+		return
+	}
 	run := hx.Start("C09")
 	r := hx.NewRand(run.Seed)
 	tmpRoot, err := os.MkdirTemp("", "verif-c09-")
@@ -971,6 +1080,11 @@ func main() {
 				partTar(run, i, m)
 				partConcurrent(run, i, m, cr, tmpRoot)
 				partProvider(run, i, m, datas)
+			}
+			if i < run.N(3, 20) {
+				for mi, m := range mods {
+					partKill(run, i, mi, m, cr, tmpRoot)
+				}
 			}
 			if i < 2 {
 				run.Sample(map[string]any{"case": i, "module_files": keysOf(mods[1].files), "side_files": keysOf(mods[1].sides), "entry_dir": mods[1].dirPath})
